@@ -188,3 +188,4 @@ pub proof fn lemma_lin_add(a: real, b: real, x1: real, y1: real, x2: real, y2: r
     assert(a * (x1 - x2) == a * x1 - a * x2) by(nonlinear_arith);
     assert(b * (y1 - y2) == b * y1 - b * y2) by(nonlinear_arith);
 }
+
